@@ -54,3 +54,10 @@ Theorem C09_available_intervals :
   List.length available_intervals = List.length intervals /\ names_distinct = true.
 Proof. split; [exact available_intervals_count | exact interval_names_distinct]. Qed.
 Print Assumptions C09_available_intervals.
+
+(* obligation regenerated from the source on every run: the code this property runs through keeps exactly the state the
+   model knows (no new attribute, class-level table, module-level binding or caching decorator), see proofs/State*Proofs.v *)
+From KV Require Import StateGen StateBase StatePitchProofs.
+Theorem C09_state_as_modelled : state_pitch = modelled_state_pitch.
+Proof. exact state_pitch_as_modelled. Qed.
+Print Assumptions C09_state_as_modelled.
